@@ -108,6 +108,39 @@ func init() {
 		Mutant{Name: "x-sendack-legacy-layout-first", File: "pkg/protocol/codec/sendack.go", Old: "\tif clientMsgNo, messageSeq, reasonCode, err := decodeSendackBodyCoreFirst(data, version); err == nil {\n\t\treturn clientMsgNo, messageSeq, reasonCode, nil\n\t}\n\tclientMsgNo, messageSeq, reasonCode, err := decodeSendackBodyClientMsgNoFirst(data, version)", New: "\tif clientMsgNo, messageSeq, reasonCode, err := decodeSendackBodyClientMsgNoFirst(data, version); err == nil {\n\t\treturn clientMsgNo, messageSeq, reasonCode, nil\n\t}\n\tclientMsgNo, messageSeq, reasonCode, err := decodeSendackBodyCoreFirst(data, version)", Expect: "C22/X1*"},
 	)
 
+	// ---- C23 -----------------------------------------------------------------------------
+	// The retained partial frame must be the session's OWN copy of the bytes: the inbound buffer is
+	// only ever appended to (copy), resliced from itself, or cleared — never set to a view of the
+	// transport's read buffer, which the transport reuses for the next chunk (seed C23-c).
+	extend("C23", nil, func(c *Ctx) {
+		fv := c.Field("pkg/gateway/core.sessionState.inbound")
+		if fv == nil {
+			return
+		}
+		n := 0
+		for _, s := range c.fieldStores(fv) {
+			if s.literal {
+				continue
+			}
+			n++
+			name := c.P.Name(s.fn)
+			addr, val := Path(s.addr), Path(s.val)
+			construct := name + "#inbound-owns-its-bytes:" + val
+			ok := val == "nil" || glob("append("+addr+", *)", val) || glob(addr+"[*]", val)
+			if ok {
+				c.add("shape", "X1-inbound-ownership", construct, Held, c.P.InstrPos(s.in), "append-copy, self-reslice or clear")
+			} else {
+				c.add("shape", "X1-inbound-ownership", construct, Violated, c.P.InstrPos(s.in),
+					fmt.Sprintf("%s stores %s into the session's inbound buffer: that aliases a buffer the session does not own (the transport may reuse it before the rest of the frame arrives); it must be append(inbound, …), inbound[k:] or nil", name, val))
+			}
+		}
+		if n < 4 {
+			c.add("shape", "X1-inbound-ownership", "stores:sessionState.inbound", Undecided, "", fmt.Sprintf("%d store(s) found, hand-confirmed minimum 4", n))
+		}
+	},
+		Mutant{Name: "x-inbound-aliases-transport-buffer", File: "pkg/gateway/core/server.go", Old: "\t\tstate.inbound = append(state.inbound, data[consumed:]...)", New: "\t\tstate.inbound = data[consumed:]", Expect: "C23/X1*"},
+	)
+
 	// ---- C04 -----------------------------------------------------------------------------
 	extend("C04", nil, func(c *Ctx) {
 		// X1: the current-term barrier is written only by an authority strictly newer than the
